@@ -595,10 +595,7 @@ def run(tier, seed, replay=None):
             chk.violation("impl-violation", "a well-formed group did not run: exit %s" % r[0], {"input": jsonable(case), "impl_observation": repr(r), "oracle_verdict": "exit 0"}, match_key={"group": "exec"})
     chk.coverage["executed_in_both_forms"] = nexec
     if tier == "thorough":
-        import common
-
-        with common._Lock():  # pylint: disable=protected-access
-            chk.run_coqchk()
+        chk.run_coqchk()
     return chk.finish()
 
 
